@@ -153,7 +153,7 @@ func cborRoundTrip(x any) (any, error) {
 		return nil, err
 	}
 	var out any
-	err = cbor.Unmarshal(b, &out)
+	err = atpx.Dec.Unmarshal(b, &out)
 	return out, err
 }
 
@@ -176,7 +176,7 @@ func v1Server(in *vpipe.Pipe, out *vpipe.Pipe, plugin *schema.CallableSchema) {
 		_ = out.Close()
 		_ = in.Close()
 	}()
-	dec := cbor.NewDecoder(in)
+	dec := atpx.Dec.NewDecoder(in)
 	enc := cbor.NewEncoder(out)
 	var start any
 	if dec.Decode(&start) != nil {
@@ -452,8 +452,30 @@ func scopeWithTag(t *rapid.T, label string) *spec.Spec {
 			keep = append(keep, p)
 		}
 	}
-	root.Props = append(keep, spec.Prop{Name: "tag", Type: &spec.Spec{Kind: spec.KString}, Required: true}, spec.Prop{Name: "zz_pad", Type: &spec.Spec{Kind: spec.KBool}})
+	root.Props = append(keep, spec.Prop{Name: "tag", Type: &spec.Spec{Kind: spec.KString}, Required: true}, spec.Prop{Name: "zz_pad", Type: &spec.Spec{Kind: spec.KBool}},
+		spec.Prop{Name: "zz_deep", Type: &spec.Spec{Kind: spec.KAny}})
 	return s
+}
+
+// withDeep adds a deeply nested value under the any-typed property zz_deep: data of recursive types nests as deep as
+// it is long, and the transport has to carry what the in-process call accepts.
+func withDeep(t *rapid.T, v val.V, label string) val.V {
+	if (v.T != "map[string]any" && v.T != "map[any]any") || rapid.IntRange(0, 5).Draw(t, label+"Deep") != 0 {
+		return v
+	}
+	depth := rapid.SampledFrom([]int{10, 28, 31, 40, 120}).Draw(t, label+"DeepLevels")
+	d := val.Int("int64", 7)
+	for i := 0; i < depth; i++ {
+		if i%2 == 0 {
+			d = val.V{T: "[]any", L: []val.V{d}}
+		} else {
+			d = val.V{T: "map[string]any", M: []val.KV{{K: val.Str("k"), V: d}}}
+		}
+	}
+	c := v
+	c.M = append(append([]val.KV(nil), v.M...), val.KV{K: val.Str("zz_deep"), V: d})
+	ev.Class(fmt.Sprintf("payload_nesting_levels=%d", depth), 1)
+	return c
 }
 
 func withTag(v val.V, tag string) val.V {
@@ -517,7 +539,7 @@ func TestSessions(t *testing.T) {
 				if !ok {
 					rt.Skip("no output data")
 				}
-				st.Outputs = append(st.Outputs, OutputSpec{ID: []string{"success", "error", "other"}[j], Schema: osc, Error: j == 1, Data: gen.RenderCanonical(rt, osc, nil, mv)})
+				st.Outputs = append(st.Outputs, OutputSpec{ID: []string{"success", "error", "other"}[j], Schema: osc, Error: j == 1, Data: withDeep(rt, gen.RenderCanonical(rt, osc, nil, mv), "output")})
 			}
 			c.Steps = append(c.Steps, st)
 		}
@@ -557,7 +579,7 @@ func TestSessions(t *testing.T) {
 				}
 			}
 			if mv, ok := gen.ValueFor(rt, st.Input, nil, 2); ok && rapid.IntRange(0, 5).Draw(rt, "validInput") != 0 {
-				cl.Input = withTag(gen.Render(rt, st.Input, nil, mv).V, cl.Run)
+				cl.Input = withDeep(rt, withTag(gen.Render(rt, st.Input, nil, mv).V, cl.Run), "input")
 			} else {
 				cl.Input = gen.Hostile(1).Draw(rt, "badInput")
 			}
